@@ -126,7 +126,7 @@ def blk(e):
     if t == "ThematicBreak":
         return ("HR",)
     if t == "LinkRefDef":
-        return ("LRD", norm_ws(str(e.label)).strip().lower(), e.dest, e.title or None)
+        return ("LRD", norm_ws(str(e.label)).strip().lower(), e.dest, _lrd_title(e.title))
     if t == "FootnoteDef":
         return ("FNDEF", e.label, blks(e.children))
     if t == "Table":
@@ -135,6 +135,16 @@ def blk(e):
     if t == "HTMLBlock":
         return ("HTMLBLOCK", e.body)
     return (t,)
+
+
+def _lrd_title(raw):
+    """The TEXT of a definition's title. marko returns it as written, with its delimiters ("..." / '...' / (...)) and
+    escapes; which delimiter the author used is spelling, not meaning."""
+    if not raw:
+        return None
+    if len(raw) >= 2 and (raw[0], raw[-1]) in (('"', '"'), ("'", "'"), ("(", ")")):
+        raw = raw[1:-1]
+    return re.sub(r"\\([!-/:-@\[-`{-~])", r"\1", raw)
 
 
 def blks(ch) -> tuple:
